@@ -42,4 +42,5 @@ EOJ
 cat $OUT/confirm.json
 tail -3 /tmp/cm-$NAME.tests | cut -c1-200
 git -C /repo worktree remove --force $WT
+python3 /verif/tools/mkmeta.py $NAME
 rm -rf /tmp/cm-$NAME.*
